@@ -17,6 +17,7 @@ block is copied to the output as is (prelude, spec functions, lemmas, impl heade
     <proof { ... } lines>
     //@ after <anchor text>           (E4: inserted after the line containing the anchor)
     //@ tail                          (E4: inserted before the closing `}` of the body)
+    //@ body                          (E4: inserted right after the opening `{` of the body)
     //@ end
 
     //@ extract struct|enum <file> <name> [attrs=<text>] [pubfields]
@@ -304,7 +305,7 @@ def instantiate(template_path, repo_root):
                     raise ExtractError('%s:%d stray end' % (unit, tl[i][2]))
                 emit_extract(gen, cur, repo_root, cur.unit)
                 cur, blk, in_with = None, None, False
-            elif cmd in ('spec', 'loop', 'before', 'after', 'tail', 'rewrite', 'head'):
+            elif cmd in ('spec', 'loop', 'before', 'after', 'tail', 'rewrite', 'head', 'body'):
                 if cur is None:
                     raise ExtractError('%s:%d directive outside extract' % (unit, tl[i][2]))
                 arg = s[3:].strip()[len(cmd):].strip()
@@ -425,6 +426,9 @@ def emit_extract(gen, ex, repo_root, unit):
             inserts.append((pos, order, b.text() + '\n', b))
         elif b.kind == 'head':
             inserts.append((0, order, b.text() + '\n', b))
+        elif b.kind == 'body':
+            # right after the `{` that opens the function body
+            inserts.append((rel_open + 1, order, '\n' + b.text(), b))
     # no insert may fall inside a replaced range
     for (p, q, _, _) in replaces:
         for (pos, _, _, b) in inserts:
@@ -486,7 +490,7 @@ def emit_extract(gen, ex, repo_root, unit):
                     buf_repo = o
             else:
                 o = {'kind': 'splice', 'unit': unit, 'fn': ex.name, 'block': meta.kind, 'arg': meta.arg,
-                     'line': meta.lineno + pi + (0 if meta.kind in ('spec', 'loop') else 1)}
+                     'line': meta.lineno + pi + (0 if meta.kind in ('spec', 'loop', 'body') else 1)}
                 if part.strip() and buf_splice is None:
                     buf_splice = o
             if buf_any is None:
